@@ -516,6 +516,17 @@ theorem filter_spec (d : Deque) (pred : Nat → Bool) (m : Mem) (hi : d.Inv) :
 
 /-! ## the allocator triple never changes -/
 
+theorem copy_triple (d : Deque) (cp : Option (Nat → Nat)) (m : Mem) (c : Deque) (h : (d.copy cp m).2.1 = some c) :
+    c.triple = d.triple := by
+  unfold copy at h
+  dsimp only at h
+  split at h
+  · cases h
+  · split at h
+    · cases h
+    · simp only [Option.some.injEq] at h
+      rw [← h]
+
 theorem trimCapacity_triple (d : Deque) (m : Mem) : (d.trimCapacity m).2.1.triple = d.triple := by
   unfold trimCapacity
   split; · rfl
